@@ -98,6 +98,11 @@ def contexts(tier):
         "typedef int a ; void y ( int a , int ( * b ) ( int y [ a * 1 ] ) ) ; a * b ;",
         "typedef int a ; void y ( int ( * b ) ( int a ) , a * y ) ; a * b ;",
         "typedef int a ; void y ( ?K ?N , int y [ sizeof ( a ) ] ) ;",
+        # file-scope declarations with several declarators (a separate code path from block-scope declarations):
+        # every declarator's name is in scope from the end of ITS declarator
+        "typedef int y , b , a [ sizeof ( b ) ] ; struct y { b a ; a b ; } ;",
+        "?D y , b , a [ sizeof ( b ) ] ; void ( * ( b ) ) ( void ) , ( a ) [ sizeof ( a ) ] ;",
+        "typedef int a ; a y , b = sizeof ( y ) , ( * y ) ( a b ) ; typedef a ( * ( a ) ) ( a y ) ;",
         # a struct / union / enum body met while the parser scans ahead for a declarator's name, or parsed twice
         # (compound literal): the scope bookkeeping of its braces must not disturb the enclosing block
         "typedef int a ; void y ( void ) { { void b ( int ( ?T y ) ) ; int a ; a = 1 ; } a * b ; }",
